@@ -218,12 +218,17 @@ def sx_project(desc, src="./" + SRC):
     by the schedule argument of the model, not here."""
     files = []
     disc = discovered_structs(desc)
+    # two definitions of one name: the index of type definitions keeps the one of the last file in sorted path order
+    winner = {}
+    for f in sorted(desc["files"], key=lambda f: f["path"]):
+        for s_ in f["structs"]:
+            winner[s_["name"]] = f["path"]
     for f in desc["files"]:
         p = src + "/" + f["path"]
         text = render_rs(f).split("\n")
         lines = {c["name"]: 1 + next(i for i, l in enumerate(text) if ("fn %s(" % c["name"]) in l) for c in f["commands"]}
         files.append([p, [sx_command(p, c, lines[c["name"]]) for c in f["commands"]],
-                      [sx_struct(p, s) for s in f["structs"] if s["name"] in disc],
+                      [sx_struct(p, s) for s in f["structs"] if s["name"] in disc and winner[s["name"]] == f["path"]],
                       [["e", e["name"], e["payload"]] for e in f["events"]]])
     return files
 
@@ -513,12 +518,33 @@ def e_validator(d):
     _toggle(_struct(d, "User")["fields"][1], "validator", "length(min = 1, max = 20)", "length(min = 3, max = 8)")
 
 
+def _first_site(d):
+    """the first emit site of the base event: in the active event list, or in the saved one while the project
+    emits nothing (events_off), so that what comes back differs from what was removed"""
+    f = d["files"][0]
+    es = f["events"] if f["events"] else f.setdefault("_ev_saved", [])
+    for e in es:
+        if e["name"] in ("status-changed", "status-updated"):
+            return e
+    return None
+
+
 def e_event_name(d):
-    _toggle(d["files"][0]["events"][0], "name", "status-changed", "status-updated")
+    e = _first_site(d)
+    if e is None:
+        return
+    new = "status-updated" if e["name"] == "status-changed" else "status-changed"
+    f = d["files"][0]
+    for x in (f["events"] if f["events"] else f.get("_ev_saved", [])):
+        if x["name"] == e["name"] and x is not e:
+            x["name"] = new
+    e["name"] = new
 
 
 def e_event_payload(d):
-    _toggle(d["files"][0]["events"][0], "payload", "Progress", "String")
+    e = _first_site(d)
+    if e is not None:
+        _toggle(e, "payload", "Progress", "String")
 
 
 def e_event_add(d):
@@ -527,6 +553,32 @@ def e_event_add(d):
         es[:] = [e for e in es if e["name"] != "tick"]
     else:
         es.append({"name": "tick", "payload": "i32"})
+
+
+def e_events_off(d):
+    """remove every emit (events present -> absent); applied again: bring the saved ones back"""
+    f = d["files"][0]
+    if f["events"]:
+        f["_ev_saved"] = f["events"]
+        f["events"] = []
+    else:
+        f["events"] = f.pop("_ev_saved", [])
+
+
+def e_event_site2(d):
+    """a second emit site of the first event's name with another payload type: absent -> i32 -> bool -> absent"""
+    f = d["files"][0]
+    es = f["events"] if f["events"] else f.setdefault("_ev_saved", [])
+    first = _first_site(d)
+    if first is None:
+        return
+    dup = [e for e in es if e["name"] == first["name"] and e is not first]
+    if not dup:
+        es.append({"name": first["name"], "payload": "i32"})
+    elif dup[0]["payload"] == "i32":
+        dup[0]["payload"] = "bool"
+    else:
+        es.remove(dup[0])
 
 
 def e_channel(d):
@@ -588,7 +640,7 @@ EDITS = {
     "field_optional": e_field_optional, "serde_rename": e_serde_rename, "serde_rename_all": e_serde_rename_all,
     "serde_skip": e_serde_skip, "cmd_rename_all": e_cmd_rename_all, "param_rename": e_param_rename, "enum_variant": e_enum_variant,
     "variant_rename": e_variant_rename, "validator": e_validator, "event_name": e_event_name,
-    "event_payload": e_event_payload, "event_add": e_event_add, "channel": e_channel, "mode": e_mode,
+    "event_payload": e_event_payload, "event_add": e_event_add, "events_off": e_events_off, "event_site2": e_event_site2, "channel": e_channel, "mode": e_mode,
     "type_mapping": e_type_mapping, "param_case": e_param_case, "field_case": e_field_case,
     "visualize": e_visualize, "noise": e_noise, "map_target": e_map_target, "map_add": e_map_add, "include_private": e_include_private,
 }
